@@ -248,8 +248,8 @@ binop!(c14_x_xls_binop_pow, 0x07, b"^");
 binop!(c14_x_xls_binop_concat, 0x08, b"&");
 binop!(c14_x_xls_binop_lt, 0x09, b"<");
 binop!(c14_x_xls_binop_eq, 0x0B, b"=");
-binop!(c14_x_xls_binop_gt, 0x0C, b">");
-binop!(c14_x_xls_binop_ge, 0x0D, b">=");
+binop!(c14_x_xls_binop_ge, 0x0C, b">=");
+binop!(c14_x_xls_binop_gt, 0x0D, b">");
 binop!(c14_x_xls_binop_isect, 0x0F, b" ");
 binop!(c14_x_xls_binop_union, 0x10, b",");
 binop!(c14_x_xls_binop_range, 0x11, b":");
